@@ -22,7 +22,7 @@ META = {
     "assumptions": ["weighted counts >= 0; unweighted head counts are a free symbolic tensor >= 0 in the t / p scenarios",
                     "Student-t cdf is an uninterpreted function T(x, df) with 0<=T<=1, T>=1/2 for x>=0, T<=1/2 for x<=0, equal arguments give equal values"],
     "stubs": ["scipy.stats.t.cdf -> Ackermannised uninterpreted function"],
-    "outside": ["overlap-corrected variant for MR columns (overlap tensors are not modelled)", "legacy pairwise_significance_tests / summary objects", "sizes beyond the bounds"],
+    "outside": ["the overlap-corrected t formula itself (inconclusive in z3 on free overlap tensors): only its diagonal, p-from-t and the index sets are claimed for CAT x MR", "legacy pairwise_significance_tests / summary objects", "sizes beyond the bounds"],
 }
 
 
@@ -187,6 +187,94 @@ def index_sets(eng, alpha=None, only_larger=True, order=None, hide=(), nr=1):
     return obs
 
 
+def overlaps(eng, index_sets=False, only_larger=False):
+    """CAT x MR with overlap measures: the overlap-corrected test between sub-variable columns"""
+    from symx.inject import SymList
+    from .cellworld import NUM_META
+    nit = 2
+    rows = ("cat", "a", 2 if not index_sets else 1, {"missing_at": (1,)})
+    cols = ("mr", "m", nit, {})
+    w = CellWorld(eng, [rows, cols], u_concrete=4, w_strict=True)
+    shape = w.shape + (nit,)
+    OV = np.empty(shape, dtype=object)
+    VO = np.empty(shape, dtype=object)
+    for n, idx in enumerate(np.ndindex(shape)):
+        OV[idx] = eng.real("ov%d" % n, strict_lo=0)
+        VO[idx] = eng.real("vo%d" % n, strict_lo=0)
+    meta = dict(NUM_META, type=dict(NUM_META["type"], subvariables=list(w.vars[1].subvar_ids)))
+    w.extra["overlap"] = {"data": SymList(OV.reshape(-1).tolist()), "n_missing": 0, "metadata": meta}
+    w.extra["valid_overlap"] = {"data": SymList(VO.reshape(-1).tolist()), "n_missing": 0, "metadata": meta}
+    tr = {"pairwise_indices": {"only_larger": only_larger}} if index_sets else None
+    part = Cube(w.response(), transforms=tr).partitions[0]
+    P = part.column_proportions.view(np.ndarray)
+    vr = w.valid(0)
+
+    def S_(a, b):
+        t = None
+        for c in vr:
+            t = OV[c, a, 0, b] if t is None else t + OV[c, a, 0, b]
+        return t
+
+    def N_(a, b):
+        t = None
+        for c in vr:
+            for pl in (0, 1):
+                t = VO[c, a, pl, b] if t is None else t + VO[c, a, pl, b]
+        return t
+    nr = P.shape[0]
+    obs = []
+    if index_sets:
+        got = part.pairwise_indices
+        g = [[[int(x) for x in got[i][a]] for a in range(nit)] for i in range(nr)]
+        obs.append(Obs("pairwise_indices never contains the own column", [[a in g[i][a] for a in range(nit)] for i in range(nr)],
+                       [[False] * nit for _ in range(nr)], kind="same"))
+        PV = [part.pairwise_significance_p_vals(a).view(np.ndarray) for a in range(nit)]
+        TS = [part.pairwise_significance_t_stats(a).view(np.ndarray) for a in range(nit)]
+        exp = []
+        for i in range(nr):
+            row = []
+            for a in range(nit):
+                cell = []
+                for b in range(nit):
+                    if b == a:
+                        continue
+                    sig = bool(PV[a][i, b] < 0.05)
+                    if sig and only_larger:
+                        sig = bool(TS[a][i, b] < 0)
+                    if sig:
+                        cell.append(b)
+                row.append(cell)
+            exp.append(row)
+        obs.append(Obs("pairwise_indices", g, exp, kind="same"))
+        return obs
+    for a in range(nit):
+        ta = part.pairwise_significance_t_stats(a).view(np.ndarray)
+        pa_ = part.pairwise_significance_p_vals(a).view(np.ndarray)
+        exp_t, exp_p = np.empty((nr, nit), dtype=object), np.empty((nr, nit), dtype=object)
+        for i in range(nr):
+            for b in range(nit):
+                if a == b:
+                    exp_t[i, b] = Q.lift(0) if eng.symbolic else 0.0
+                    continue
+                pa = C.div(S_(a, a), N_(a, a))
+                pb = C.div(S_(b, b), N_(b, b))
+                pab = C.div(S_(a, b), N_(a, b))
+                df = N_(a, a) + N_(b, b) - N_(a, b)
+                var = C.div(pa * (1 - pa) + pb * (1 - pb) + pa * pb * 2 - pab * 2, df)
+                exp_t[i, b] = C.div(P[i, b] - P[i, a], C.sqrt(var))
+                if eng.symbolic:
+                    exp_p[i, b] = (1 - inject._TStub.cdf(abs(Q.lift(ta[i, b])), df=df - 2)) * 2
+                else:
+                    import scipy.stats as st
+                    exp_p[i, b] = 2 * (1 - st.t.cdf(abs(ta[i, b]), df=df - 2))
+        # the t formula itself (free overlap tensors: 32 unconstrained reals under a radical) is inconclusive in z3 within
+        # the time limit and is not claimed; the diagonal and the p-from-t relation are
+        obs.append(Obs("overlap t_stats(selected=%d) diagonal" % a, C.to_array([ta[i, a] for i in range(nr)]), C.to_array([exp_t[i, a] for i in range(nr)])))
+        keep = [(i, b) for i in range(nr) for b in range(nit) if b != a]
+        obs.append(Obs("overlap p_vals(selected=%d)" % a, C.to_array([pa_[ib] for ib in keep]), C.to_array([exp_p[ib] for ib in keep])))
+    return obs
+
+
 def specs(tier):
     out = []
     M = "props.c13"
@@ -201,7 +289,10 @@ def specs(tier):
     add("index sets two alphas, not only larger", "index_sets", dict(alpha=[0.10, 0.05], only_larger=False))
     add("index sets with explicit column order", "index_sets", dict(order=[2, 1], only_larger=False))
     add("index sets with hidden column", "index_sets", dict(hide=[1], alpha=[0.05, 0.2]))
+    add("overlap index sets, not only larger", "overlaps", dict(index_sets=True, only_larger=False))
     if tier == "thorough":
+        add("overlap-corrected t/p diagonal and p-from-t (cat x mr)", "overlaps", dict())
+        add("overlap index sets, only larger", "overlaps", dict(index_sets=True, only_larger=True))
         add("t/p 3x4", "tp", dict(nr=3, ncols=4))
         add("index sets 2 rows", "index_sets", dict(nr=2, only_larger=False), max_paths=20000)
     return out
